@@ -136,6 +136,20 @@ func (q SRPParams) SRPClientAnswer(x, a, gB *big.Int) (A []byte, M1 []byte) {
 	return SRPPad(gA), q.m1(gA, gB, kA)
 }
 
+// SRPSharedSecret is the client's s_a = pow(g_b - k*v, a + u*x) mod p.
+func (q SRPParams) SRPSharedSecret(x, a, gB *big.Int) *big.Int {
+	p := q.P
+	gA := new(big.Int).Exp(q.g(), a, p)
+	u := new(big.Int).SetBytes(srpH(SRPPad(gA), SRPPad(gB)))
+	kv := new(big.Int).Mul(q.K(), q.SRPVerifierV(x))
+	kv.Mod(kv, p)
+	t := new(big.Int).Sub(gB, kv)
+	t.Mod(t, p)
+	e := new(big.Int).Mul(u, x)
+	e.Add(e, a)
+	return new(big.Int).Exp(t, e, p)
+}
+
 // SRPServerCheck is the verifier: with stored v and its secret b it accepts
 // (A, M1) iff 0 < A < p and M1 equals the value derived from
 // s_b = pow(A * pow(v, u), b) mod p.
